@@ -615,6 +615,59 @@ def random_streams(rng, n):
     return out
 
 
+def _zz(v):
+    return _zigzag_varint(v)
+
+
+def impl_encode(t, n, fill):
+    """Bytes of a value of a dissector layout (as `vh-kafka impl-layouts` prints it) in the dissector's own
+    (non-compact) encoding: every array with n elements, every scalar taken from `fill`."""
+    k = t["k"]
+    if k == "bool":
+        return b"\x01"
+    if k in ("i8", "i16", "i32", "i64"):
+        w = {"i8": 1, "i16": 2, "i32": 4, "i64": 8}[k]
+        return (fill % (1 << (8 * w))).to_bytes(w, "big")
+    if k == "str":
+        return struct.pack(">h", 2) + b"ab"
+    if k == "bytes":
+        return struct.pack(">i", 2) + b"xy"
+    if k in ("arr", "carr"):
+        return struct.pack(">i", n) + b"".join(impl_encode(t["e"], n, fill) for _ in range(n))
+    if k == "struct":
+        return b"".join(impl_encode(f[1], n, fill) for f in t["f"])
+    if k == "record":
+        body = b"\x00" + _zz(0) + _zz(0) + _zz(1) + b"k" + _zz(1) + b"v" + _zz(0)
+        return _zz(len(body)) + body
+    # a type the translator does not know (no decode function in the model either): one byte, so that whatever the
+    # dissector does when it reaches the field has something to read
+    return bytes([fill % 256])
+
+
+def impl_encoded_cases(ctx):
+    """Layout-directed inputs: for every api x version 0..15 the layouts the dissector itself selects, filled with one
+    and with two elements in every array and sent as a matching request/response pair.  The independent encoder
+    cannot reach the inner fields of a layout that diverges from the protocol (a flexible version read with the
+    non-compact layout stops at the first array); these inputs reach every field of every layout."""
+    if getattr(ctx, "_kafka_impl_layouts", None) is None:
+        rc, out = ctx.vh(HARNESS, ["impl-layouts"], timeout=300)
+        ctx._kafka_impl_layouts = [json.loads(l) for l in out.split("\n") if l.startswith("{")]
+        if rc != 0 or not ctx._kafka_impl_layouts:
+            ctx.broken.append("kafka: impl-layouts failed: " + out[-300:])
+    cases, seen = [], set()
+    for lay in ctx._kafka_impl_layouts:
+        key = (lay["api"], json.dumps(lay["req"]), json.dumps(lay["resp"]))
+        if key in seen:
+            continue        # the same pair of layouts at a neighbouring version
+        seen.add(key)
+        for n, fill in ((1, 1), (2, 1), (1, -1), (1, 0)):
+            corr = 100 + len(cases)
+            rq = struct.pack(">hhih", lay["api"], lay["ver"], corr, 2) + b"cl" + (impl_encode(lay["req"], n, fill) if lay["req"] else b"")
+            rs = struct.pack(">i", corr) + (impl_encode(lay["resp"], n, fill) if lay["resp"] else b"")
+            cases.append(case((struct.pack(">i", len(rq)) + rq).hex(), (struct.pack(">i", len(rs)) + rs).hex()))
+    return cases
+
+
 # --------------------------------------------------------------------------- C01 (Kafka share)
 def c01(ctx):
     """Never panics; what was completely received before the cut is still emitted."""
@@ -638,6 +691,14 @@ def c01(ctx):
     for c in random_streams(rng, 300 if quick else 5000):
         cases.append(c)
         meta.append(("random", None, None))
+    # every conversation of the independent encoder whole: each api x version of the grid with its arrays filled (a
+    # layout that only one version of one api selects, a field that is present only when an inner array is non-empty)
+    for conv in gen(ctx):
+        cases.append(case(conv["client"], conv["server"]))
+        meta.append(("whole", None, None))
+    for c in impl_encoded_cases(ctx):
+        cases.append(c)
+        meta.append(("impl-layout", None, None))
     # two fields of one message at once: every pair of the fixed-width fields of the smallest Produce request and Fetch
     # response that carry a record batch, each set to 0, all ones and a small value (a flag that selects a code path
     # together with a length that the path does not expect)
@@ -898,6 +959,10 @@ def c08(ctx):
     for conv in convs[:4 if quick else 20]:
         for cc in corruptions(rng, conv, 2):
             streams.append((conv["name"] + "+corruption", cc["c"], cc["s"], cc["tail"]))
+    # layout-directed exchanges (every field of a dissector layout present), the smaller ones
+    ie = sorted(impl_encoded_cases(ctx), key=lambda c: len(c["c"]) + len(c["s"]))
+    for i, c in enumerate(ie[:len(ie) // 2][::6 if quick else 1]):
+        streams.append(("impl-layout-%d" % i, c["c"], c["s"], 0))
     cases, meta = [], []
     for name, c, s, tail in streams:
         nc, ns = len(c) // 2, len(s) // 2
@@ -952,6 +1017,8 @@ def c11(ctx):
             c = bytearray.fromhex(conv["client"])
             c[conv["req_at"][0] + 6:conv["req_at"][0] + 8] = struct.pack(">h", v)
             cases.append(case(c.hex(), conv["server"]))
+    # every layout of the dissector with its inner arrays filled (items whose every field is present)
+    cases += impl_encoded_cases(ctx)
     res = run(ctx, cases, mode="stage")
     nviol, nitems = 0, 0
     for c, r in zip(cases, res):
